@@ -18,6 +18,7 @@ import ALV.Lemmas.C03PTotalRun
 import ALV.Lemmas.C03Counts
 import ALV.Lemmas.C03Call
 import ALV.Lemmas.C03X
+import ALV.Lemmas.C03XC
 import ALV.Common.Audit
 
 namespace ALV.Props.C03
@@ -706,13 +707,100 @@ theorem raise_tee_once {f : Nat} {h h' : XHeap α} {k : Nat} {parent p' : XIt α
     xnext (f + 1) h (.tee k buf.length) = some (h'.set k ⟨p', buf⟩, .tee k buf.length, .raise e) :=
   tee_raise_not_stored hk hp
 
--- PENDING: the history-level statement with copies.  Because `tee` delivers an exception to one copy
--- only, copies are not independent event lists; the specification needs a shared set of exceptions
--- already delivered (each raising position of a source fires once).  `xrun` (model) is tied to the real
--- code on such histories; the refinement to that specification is not proved.
-def raise_history_with_copies_PENDING : Prop :=
-  ∀ (ops : List (XOp Int)) (f : Nat), (∀ o, o ∈ xrun f (XSt.empty : XSt Int) ops → o ≠ none) →
-    ∃ spec : List (XOp Int) → List (Option (Obs Int)), xrun f (XSt.empty : XSt Int) ops = spec ops
+/-- **C03.11f (histories with exceptions AND copies)** — was `raise_history_with_copies_PENDING`.  For
+every history of new / take / next / list() / skip / limit / append / map / filter / `s.attr` / `copy` /
+`peek`, of any length, over sources and element functions that raise anywhere: whenever the heap model
+terminates at every step, the whole list of observations is the one of the specification
+`Spec/C03XC.lean` — a Stream is a list of events (`evs`; every method is the list function of C03.11c)
+wherever nothing below it is shared; a copy / `peek` turns what the Stream denoted into a shared
+sequence (`SHub`: what it still has to deliver, and the ITEMS delivered so far) read through `view`s; a
+view behind the front reads the stored item, the view at the front takes the head event for everybody:
+an item is stored, an exception goes to that view alone and is gone. -/
+theorem raise_history_with_copies (ops : List (XOp α)) (f : Nat)
+    (hterm : ∀ o, o ∈ xrun f (XSt.empty : XSt α) ops → o ≠ none) :
+    xrun f (XSt.empty : XSt α) ops = srun f (SSt.empty : SSt α) ops :=
+  srun_abs f ops XSt.empty hterm
+
+/-- **C03.11g (one step, any state)** the same for one operation from any state of the heap model:
+`XSt.abs` replaces every iterator without tee leaves — in the pool, under a wrapper, as the source of
+a tee — by the list of events it denotes. -/
+theorem raise_step_with_copies {f : Nat} {st st' : XSt α} {op : XOp α} {o : Obs α}
+    (hx : xstep f st op = some (st', o)) : sstep f st.abs op = some (st'.abs, o) := sstep_abs hx
+
+/-- **C03.11h (the specification with copies extends the one without)** on histories without `copy` /
+`peek` the specification with copies makes the observations of the event-list model of C03.11c (whenever
+the heap model terminates). -/
+theorem raise_copies_conservative (ops : List (XOp α)) (f : Nat) (hops : ∀ op, op ∈ ops → op.teeFree = true)
+    (hterm : ∀ o, o ∈ xrun f (XSt.empty : XSt α) ops → o ≠ none) :
+    srun f (SSt.empty : SSt α) ops = xspecRun [] ops := by
+  rw [← raise_history_with_copies ops f hterm]; exact raise_history ops f hops hterm
+
+/-- **C03.11i (an exception of a shared sequence is delivered once; items to everybody)** a reader `pos` items
+behind the start of a shared sequence whose source is a list of events `L` (nothing shared below it; `buf`:
+the items delivered so far) has `viewOf L buf pos` in front of it — the stored items it has not read, then
+`L`.  `next` on it delivers the head of that view (StopIteration for the empty one) and leaves the tail.
+When it is an item (or StopIteration) the view of EVERY reader `q` of that sequence is unchanged — copies
+are independent, whatever the order of consumption.  An exception can only be met at the front
+(`pos = buf.length`); it is removed from the shared list and nothing is stored: the view of every other
+reader, `viewOf (error e :: L') buf q`, becomes `viewOf L' buf q` — its old view with that one event
+erased. -/
+theorem raise_shared_once (f : Nat) {H : SHeap α} {k : Nat} {L : List (Ev α)} {buf : List α} {pos : Nat}
+    (hk : H[k]? = some ⟨.evs L, buf⟩) (hp : pos ≤ buf.length) :
+    ∃ (L' : List (Ev α)) (buf' : List α) (pos' : Nat) (r : Res α),
+      snext (f + 2) H (.view k pos) = some (H.set k ⟨.evs L', buf'⟩, .view k pos', r) ∧ pos' ≤ buf'.length ∧
+      (match r with
+        | .stop => viewOf L buf pos = [] ∧ viewOf L' buf' pos' = [] ∧
+            ∀ q, q ≤ buf.length → viewOf L' buf' q = viewOf L buf q
+        | .item v => viewOf L buf pos = .ok v :: viewOf L' buf' pos' ∧
+            ∀ q, q ≤ buf.length → viewOf L' buf' q = viewOf L buf q
+        | .raise e => viewOf L buf pos = .error e :: viewOf L' buf' pos' ∧
+            pos = buf.length ∧ buf' = buf ∧ L = .error e :: L') := by
+  obtain ⟨L', buf', pos', r, h1, h2, h3, h4⟩ := shared_next f hk hp
+  refine ⟨L', buf', pos', r, h1, h2, ?_⟩
+  cases r with
+  | stop => exact ⟨h3.1, h3.2, h4⟩
+  | item v => exact ⟨h3, h4⟩
+  | raise e => exact ⟨h3, h4⟩
+
+/-- non-vacuity of C03.11i: two readers of one shared sequence `[1, KeyError, 3]`, one item delivered:
+    the reader at the front gets the exception, the one behind never sees it -/
+example :
+    let H : SHeap Int := [⟨.evs [.error "KeyError", .ok 3], [1]⟩]
+    H[0]? = some ⟨.evs [.error "KeyError", .ok 3], [1]⟩ ∧ (1 : Nat) ≤ [1].length ∧
+    snext 2 H (.view 0 1) = some ([⟨.evs [.ok 3], [1]⟩], .view 0 1, .raise "KeyError") ∧
+    viewOf [.error "KeyError", .ok 3] [(1 : Int)] 0 = [.ok 1, .error "KeyError", .ok 3] ∧
+    viewOf [.ok 3] [(1 : Int)] 0 = [.ok 1, .ok 3] := ⟨rfl, by decide, rfl, rfl, rfl⟩
+
+/-- **C03.11j (`skip` with a count that `int(round(n))` refuses)** `s.skip(inf)` / `skip(-inf)` (OverflowError),
+`skip(nan)` (ValueError), `skip(None)` (TypeError): the CALL succeeds and returns `self` for every count —
+`int(round(n))` is evaluated lazily, inside the generator; no tee buffer is touched (a copy made before
+keeps everything); the first read of the Stream raises that error, after it the Stream is empty. -/
+theorem skip_refused_lazy (f : Nat) (st : XSt α) (i : Nat) (it : XIt α) (c : Cnt) (e : String)
+    (hi : st.pool[i]? = some (some it)) (hc : roundCount c = .error e) :
+    ∃ st' : XSt α, xstep f st (xskipOf i c) = some (st', .unit) ∧ st'.heap = st.heap ∧
+      (∀ j, j ≠ i → st'.pool[j]? = st.pool[j]?) ∧
+      xrun (f + 1) st' [.next i, .next i, .take i (.int 3)] =
+        [some (.err e), some (.err "StopIteration"), some (.items [])] := by
+  refine ⟨⟨st.heap, st.pool.set i (some (.src [.error e]))⟩, ?_, rfl, ?_, ?_⟩
+  · simp [xskipOf, hc, xstep, hi]
+  · intro j hj; simp [List.getElem?_set, Ne.symm hj]
+  · have hlt : i < st.pool.length := (List.getElem?_eq_some_iff.1 hi).1
+    simp [xrun, xstep, xtakeIt, takeMode, xnext, xtakeN, obsOf, hlt]
+
+/-- the refused counts and their errors; every other count is accepted and rounded half-to-even -/
+theorem skip_refused_kinds :
+    roundCount .inf = .error "OverflowError" ∧ roundCount .ninf = .error "OverflowError" ∧
+    roundCount .nan = .error "ValueError" ∧ roundCount .none = .error "TypeError" ∧
+    (∀ n : Int, (xskipOf 0 (.int n) : XOp α) = .skip 0 n.toNat) ∧
+    (∀ x : Rat, (xskipOf 0 (.flt x) : XOp α) = .skip 0 (roundHalfEven x).toNat) :=
+  ⟨rfl, rfl, rfl, rfl, fun _ => rfl, fun _ => rfl⟩
+
+/-- non-vacuity of C03.11j: a copy made before `skip(inf)` keeps everything -/
+example :
+    xrun 9 (XSt.empty : XSt Int)
+      [.new [.ok 1, .ok 2], .copy 0, xskipOf 0 .inf, .next 0, .next 0, .drain 1, xskipOf 1 .nan, .drain 1, .drain 1]
+    = [some (.new 0), some (.new 1), some .unit, some (.err "OverflowError"), some (.err "StopIteration"),
+       some (.items [1, 2]), some .unit, some (.err "ValueError"), some (.items [])] := by decide +kernel
 
 /-- non-vacuity: `map` goes on after the exception, `take(5)` raises and the Stream goes on behind the
     raising position; `limit` and `skip` are finished by it; `s.attr` goes on -/
@@ -740,6 +828,21 @@ example :
        .drain 1]
     = [some (.new 0), some .unit, some (.new 1), some (.err "ValueError"), some (.items [10, 20]), some (.item 40),
        some (.items [10, 20, 40, 50])] := by decide +kernel
+/-- non-vacuity of C03.11f: the same history on the specification with copies; and a `limit` over a copy is
+    finished by the exception it is handed, while the other copy goes on -/
+example :
+    let boom : Int → Ev Int := fun x => if x = 3 then .error "ValueError" else .ok (x * 10)
+    let ops : List (XOp Int) :=
+      [.new [.ok 1, .ok 2, .ok 3, .ok 4, .ok 5], .map 0 boom, .copy 0, .peek 0 (.int 5), .take 0 (.int 2), .next 0,
+       .drain 1,
+       .new [.ok 1, .error "KeyError", .ok 3, .ok 4], .copy 2, .limit 2 3, .take 2 (.int 3), .drain 2, .drain 3]
+    let obs : List (Option (Obs Int)) :=
+      [some (.new 0), some .unit, some (.new 1), some (.err "ValueError"), some (.items [10, 20]), some (.item 40),
+       some (.items [10, 20, 40, 50]),
+       some (.new 2), some (.new 3), some .unit, some (.err "KeyError"), some (.items []), some (.items [1, 3, 4])]
+    xrun 9 (XSt.empty : XSt Int) ops = obs ∧ srun 9 (SSt.empty : SSt Int) ops = obs ∧
+      (∀ o, o ∈ xrun 9 (XSt.empty : XSt Int) ops → o ≠ none) := by
+  refine ⟨by decide +kernel, by decide +kernel, by decide +kernel⟩
 
 end ALV.Props.C03
 
